@@ -632,7 +632,15 @@ def rule_render(ctx):
                         'postfix %% is rendered as `%s`' % text, file=OP,
                         function='Operator.set_expr', line=st.lineno)
         else:
-            ok = text.startswith("'(%s)' %") and ('.join(%s)' % evar) in text
+            tok_lists = {evar}
+            for t_, v_, _s in assign_pairs(f):
+                if isinstance(t_, ast.Name) and isinstance(
+                        v_, (ast.ListComp, ast.GeneratorExp)) and any(
+                        isinstance(x, ast.Name) and x.id == (f.vararg or '')
+                        for g_ in v_.generators for x in ast.walk(g_.iter)):
+                    tok_lists.add(t_.id)
+            ok = text.startswith("'(%s)' %") and any(
+                ('.join(%s)' % nm) in text for nm in tok_lists)
             if ok:
                 rr.ok('binary operator (%s) rendered as one parenthesised '
                       'group joined by the operator' % cond, OP)
@@ -646,8 +654,16 @@ def rule_render(ctx):
     # function rendering: NAME(args) with upper-cased name
     fn = p.func('formulas/tokens/function.py', 'Function.set_expr')
     rr.instances += 1
+    from ..util import template_of
     t = ' '.join(norm_src(n) for n in own_nodes(fn) if isinstance(n, ast.Assign))
-    if '.upper()' in t and "'%s(%s)'" in t and "', '.join" in t:
+    shaped = False
+    for n in own_nodes(fn):
+        tp = template_of(n) if isinstance(
+            n, (ast.BinOp, ast.Call, ast.JoinedStr)) else None
+        if tp and tp[0] == '{}({})' and len(tp[1]) == 2 and \
+                '.upper()' in norm_src(tp[1][0]):
+            shaped = True
+    if shaped and "', '.join" in t:
         rr.ok('functions rendered as NAME(a, b, ...) with the name upper-cased',
               fn.module.rel)
     else:
